@@ -5,6 +5,7 @@ use crate::kit::runner::{Ctx, Sub};
 
 pub mod c02;
 pub mod c03;
+pub mod c04;
 pub mod c16;
 
 pub struct PropDef {
@@ -19,6 +20,7 @@ pub fn get(id: &str) -> Option<PropDef> {
     match id {
         "C02" => Some(c02::def()),
         "C03" => Some(c03::def()),
+        "C04" => Some(c04::def()),
         "C16" => Some(c16::def()),
         _ => None,
     }
